@@ -336,8 +336,9 @@ class Violation(Exception):
 
 
 class Run:
-    def __init__(self, scn, stream, keep_log=False):
+    def __init__(self, scn, stream, keep_log=False, prop="C19"):
         self.scn = scn
+        self.prop = prop
         self.st = stream
         self.keep_log = keep_log
         self.root = new_run_root()
@@ -411,6 +412,7 @@ class Run:
             url = getattr(url, "full_url", str(url))
         filename = (args[1] if len(args) > 1 else kwargs.get("filename")) if fn_name == "urlretrieve" else None
         a.attrs["net_calls"] = a.attrs.get("net_calls", 0) + 1
+        a.attrs.setdefault("urls", []).append(url)
         ds = self.world.by_url.get(url)
         sim.yield_point(a, "net.before", ds.name if ds else "unknown-url")
         if a.attrs.get("net_mode") == "down":
@@ -486,10 +488,13 @@ class Run:
 
     # -- loaders
     def make_loader(self, spec):
-        ds = self.world.ds[spec["target"]]
+        ds = self.world.ds.get(spec.get("target"))
         run = self
 
         def fn():
+            if spec.get("raw_name") is not None:
+                kwargs = {} if spec.get("unpack") is None else {"unpack_dataset_columns": spec["unpack"]}
+                return run.datasets.load_dataset(spec["raw_name"], **kwargs)
             kw = {}
             via = spec["via"]
             if via != "load_dataset":
@@ -536,7 +541,7 @@ class Run:
 
     # -- oracles
     def fail(self, cls, key, msg):
-        raise Violation(f"C19/{cls}", key, msg)
+        raise Violation(f"{self.prop}/{cls}", key, msg)
 
     def matches(self, value, ds, unpack):
         exp = ds.expected
@@ -649,6 +654,8 @@ class Run:
 
     def judge(self, a):
         spec = a.attrs["spec"]
+        if spec.get("raw_name") is not None:
+            return
         ds = self.world.ds[spec["target"]]
         key = f"dataset={ds.name}"
         who = f"actor {a.id} ({a.role}, via {spec['via']}, dim={spec.get('dim', True)}, force={spec.get('force', False)})"
@@ -843,8 +850,8 @@ class _FakeResponse(io.BytesIO):
         return 200
 
 
-def execute(scn, stream, keep_log=False):
-    """Run one scenario. Returns a runner.Result."""
+def execute(scn, stream, keep_log=False, extra=None, prop="C19"):
+    """Run one scenario. Returns a runner.Result.  `extra(run, storm_actors)` may add oracles (raise Violation)."""
     K.install()
     res = R.Result()
     saved_env = {k: os.environ.get(k) for k in ("HOME", "TRAFFIC_WEAVER_DATA")}
@@ -852,13 +859,19 @@ def execute(scn, stream, keep_log=False):
     try:
         with warnings.catch_warnings():
             warnings.simplefilter("ignore")
-            run = Run(scn, stream, keep_log)
+            run = Run(scn, stream, keep_log, prop=prop)
             K.activate(run.sim)
+            if scn.get("case") is not None:
+                run.sim.note(-1, "CASE", repr(scn["case"]))
             try:
                 try:
                     run.setup()
-                    run.storm()
+                    storm_actors = run.storm()
+                    if extra is not None:
+                        extra(run, storm_actors, "pre")
                     run.calm()
+                    if extra is not None:
+                        extra(run, storm_actors, "post")
                     if run.sim.outside_writes:
                         ow = run.sim.outside_writes[0]
                         run.fail("P1/write-outside-data-home", "outside-write",
@@ -867,7 +880,7 @@ def execute(scn, stream, keep_log=False):
                     res.violation = {"cls": v.cls, "key": v.key, "msg": v.msg}
                     run.sim.note(-1, "VIOLATION", v.cls)
                 except K.StepCap as e:
-                    res.violation = {"cls": "C19/P3/no-termination", "key": "step-cap", "msg": str(e)}
+                    res.violation = {"cls": f"{prop}/P3/no-termination", "key": "step-cap", "msg": str(e)}
                     run.sim.note(-1, "VIOLATION", "step-cap")
             finally:
                 try:
